@@ -48,6 +48,15 @@ class Frame():
         for big_edge_id, big_edge in enumerate(self.big_edges_list):
             vertices_objects = [self.vertices[vid] for vid in big_edge]
             self.big_edges[big_edge_id] = fedge.BigEdge(big_edge_id, vertices_objects)
+            if len(big_edge) == 2:
+                # a two-point interface belongs to the cells in whose cycle its two vertices are neighbours; the cells common to
+                # both ends can be more (a cell with two neighbours)
+                def are_neighbours(cell):
+                    ids = [v.id for v in cell.vertices]
+                    position = ids.index(big_edge[0])
+                    return big_edge[1] in (ids[position - 1], ids[(position + 1) % len(ids)])
+                self.big_edges[big_edge_id].own_cells = [cid for cid in self.big_edges[big_edge_id].own_cells
+                                                         if are_neighbours(self.cells[cid])]
 
         self.external_edges_id = [self.big_edges_list.index(e) 
                                     for e in fs.virtual_edges.get_border_edge(self.big_edges_list, 
